@@ -1090,7 +1090,15 @@ static size_t _GD_DoMultiply(DIRFILE *restrict D, gd_entry_t *restrict E,
     return 0;
   }
 
-  if (n_read2 > 0 && n_read2 * spf1 < n_read * spf2)
+  /* the second field has no data here: neither has this one (the kernel
+   * must not run over the unwritten buffer) */
+  if (n_read2 == 0) {
+    free(tmpbuf);
+    dreturn("%i", 0);
+    return 0;
+  }
+
+  if (n_read2 * spf1 < n_read * spf2)
     n_read = n_read2 * spf1 / spf2;
 
   if (type2 & GD_COMPLEX)
@@ -1213,7 +1221,15 @@ static size_t _GD_DoDivide(DIRFILE *restrict D, gd_entry_t *restrict E,
     return 0;
   }
 
-  if (n_read2 > 0 && n_read2 * spf1 < n_read * spf2)
+  /* the second field has no data here: neither has this one (the kernel
+   * must not run over the unwritten buffer) */
+  if (n_read2 == 0) {
+    free(tmpbuf);
+    dreturn("%i", 0);
+    return 0;
+  }
+
+  if (n_read2 * spf1 < n_read * spf2)
     n_read = n_read2 * spf1 / spf2;
 
   if (type2 & GD_COMPLEX)
@@ -1457,7 +1473,15 @@ static size_t _GD_DoWindow(DIRFILE *restrict D, gd_entry_t *restrict E,
     return 0;
   }
 
-  if (n_read2 > 0 && n_read2 * spf1 < n_read * spf2)
+  /* the second field has no data here: neither has this one (the kernel
+   * must not run over the unwritten buffer) */
+  if (n_read2 == 0) {
+    free(tmpbuf);
+    dreturn("%i", 0);
+    return 0;
+  }
+
+  if (n_read2 * spf1 < n_read * spf2)
     n_read = n_read2 * spf1 / spf2;
 
   _GD_WindowData(D, data_out, spf1, tmpbuf, spf2, return_type,
@@ -1538,6 +1562,14 @@ static size_t _GD_DoMplex(DIRFILE *restrict D, gd_entry_t *restrict E,
       num_samp2, GD_INT_TYPE, tmpbuf);
 
   if (D->error != GD_E_OK) {
+    free(tmpbuf);
+    dreturn("%i", 0);
+    return 0;
+  }
+
+  /* the count field has no data here: neither has this one (tmpbuf[0] is
+   * unwritten) */
+  if (n_read2 == 0) {
     free(tmpbuf);
     dreturn("%i", 0);
     return 0;
@@ -1625,7 +1657,7 @@ static size_t _GD_DoMplex(DIRFILE *restrict D, gd_entry_t *restrict E,
     _GD_Seek(D, E->e->entry[1], first_samp2 + n_read2, GD_SEEK_SET);
   }
 
-  if (n_read2 > 0 && n_read2 * spf1 < n_read * spf2)
+  if (n_read2 * spf1 < n_read * spf2)
     n_read = n_read2 * spf1 / spf2;
 
   _GD_MplexData(D, data_out, spf1, tmpbuf, spf2, return_type,
